@@ -93,6 +93,7 @@ func ruleEANAssembly(c *Ctx) {
 		body := hdr.Succs[0]
 		// guard bars may be appended directly or through small helpers: search one level deep
 		var first, last, centre, data ssa.Instruction // the instruction in fn itself (call of AddBit or of the helper)
+		var dataSites []*ssa.Call                     // every append of a digit pattern (one site, or one per half)
 		var centreSite *DeepSite
 		for _, site := range c.P.deepCallsTo(fn, addBit) {
 			call := site.Ins.(*ssa.Call)
@@ -115,6 +116,7 @@ func ruleEANAssembly(c *Ctx) {
 				}
 			} else if len(site.Path) == 0 {
 				data = call
+				dataSites = append(dataSites, call)
 			}
 		}
 		c.Check(R, v.name+"/start-guard", fn.Pos(), first != nil && first.Block() == fn.Blocks[0], "101 before the digits", fmt.Sprint(first != nil))
@@ -134,19 +136,40 @@ func ruleEANAssembly(c *Ctx) {
 			continue
 		}
 		if centre != nil {
-			c.Check(R, v.name+"/centre-before-digit", data.Pos(), !dominatesInstr(data, centre), "centre guard precedes the digit at that position", "ok")
+			okOrder := true
+			for _, d := range dataSites {
+				if dominatesInstr(d, centre) {
+					okOrder = false
+				}
+			}
+			c.Check(R, v.name+"/centre-before-digit", data.Pos(), okOrder, "centre guard precedes the digit at that position", "ok")
 		}
-		// the appended pattern, by cases (selected in place or by a helper of the digit's entry)
+		// the appended pattern, by cases (selected in place, by a helper of the digit's entry, or by
+		// separate appends for the two halves)
 		projectOK(n, fn, body, data.Block())
-		dv := data.(*ssa.Call).Common().Args[1]
-		cases := n.valueCases(fn, body, dv, 0)
-		at := cAnd(n.ReachCond(fn, body, data.Block()), cTrue)
+		var cases []valCase
+		for _, d := range dataSites {
+			at := n.ReachCond(fn, body, d.Block())
+			for _, cs := range n.valueCases(fn, body, d.Common().Args[1], 0) {
+				cases = append(cases, valCase{cs.val, cAnd(at, cs.cond)})
+			}
+		}
+		cases = mergeCases(cases)
+		for i, d1 := range dataSites {
+			for j, d2 := range dataSites {
+				if i != j {
+					if eq, _ := CondEquivalent(n.ReachCond(fn, d1.Block(), d2.Block()), cFalse); !eq || d1.Block() == d2.Block() {
+						c.Check(R, v.name+"/one-pattern-per-digit", d2.Pos(), false, "at most one pattern appended per digit", "a second append is reachable after the first")
+					}
+				}
+			}
+		}
 		if len(cases) < 2 {
 			c.Undecided(R, v.name+"/set-selection", data.Pos(), "pattern is not selected per position")
 			continue
 		}
 		for ei, cs := range cases {
-			cond := cAnd(at, cs.cond)
+			cond := cs.cond
 			f := cs.val.String()
 			var want string
 			switch {
